@@ -1,4 +1,5 @@
 import Secp.Proofs.ScalarEnc
+import Secp.Proofs.ScalarOpsSpec
 import Secp.Proofs.Fermat
 import Secp.Proofs.ScalarApiTiesArith
 import Secp.Proofs.ScalarApiTiesTests
@@ -37,9 +38,8 @@ theorem multiply_nil (s : L4) : multiply s none = zero ∧ sVal zero = 0 := ⟨r
 theorem set_nil (s : L4) : set s none = zero := rfl
 
 /-- **Invert**: `s⁻¹` (so `s · s⁻¹ = 1` for every `s ≠ 0`), and `0 ↦ 0`; result canonical -/
-theorem invert_correct (s : L4) (hs : sOk s) : sOk (invert s) ∧ sVal (invert s) = (sVal s)⁻¹ := by
-  obtain ⟨ok, v⟩ := scalarInvert_pow scalarLawful s hs
-  exact ⟨ok, by rw [← zmod_pow_sub_two N (by decide) (sVal s)]; exact v⟩
+theorem invert_correct (s : L4) (hs : sOk s) : sOk (invert s) ∧ sVal (invert s) = (sVal s)⁻¹ :=
+  ScalarOps.invert_correct s hs
 
 /-- **`Invert` regenerated from `scalar.go` and `internal/scalar` on this run**: `Scalar.Invert` calls `scalar.Invert(&s.S, s.S)`
 (the operand passed by value), which runs the regenerated addition chain on that copy; the chain's two operations are the
@@ -68,13 +68,8 @@ theorem invert_zero : sVal (invert zero) = 0 := by
   rw [this, inv_zero]
 
 /-- **SetUInt64**: the integer `i`, for every 64-bit `i` -/
-theorem setUInt64_correct (i : Nat) (hi : i < W) : sOk (setUInt64 i) ∧ sVal (setUInt64 i) = (i : Zn) := by
-  have hx : (⟨i, 0, 0, 0⟩ : L4).ok := ⟨hi, W_pos, W_pos, W_pos⟩
-  obtain ⟨ok, v⟩ := s_toMont hx
-  refine ⟨ok, ?_⟩
-  show sVal (FiatScalar.toMontgomery ⟨i, 0, 0, 0⟩) = _
-  rw [v]
-  simp [L4.eval]
+theorem setUInt64_correct (i : Nat) (hi : i < W) : sOk (setUInt64 i) ∧ sVal (setUInt64 i) = (i : Zn) :=
+  ScalarOps.setUInt64_correct i hi
 
 /-- **Zero, One, MinusOne** -/
 theorem zero_correct : sOk zero ∧ sVal zero = 0 := ⟨sZero_ok, sVal_zero⟩
@@ -88,37 +83,11 @@ theorem minusOne_correct : sOk minusOne ∧ sVal minusOne = -1 := by
 /-- **Pow** (`math/big` is modelled as exact modular powering, see the trusted base): `t = nil` or `t = 0` give 1,
 `t = 1` gives `s`; otherwise the result is the decoding of `(value of s)^(value of t) mod n`, i.e. `s^t`. -/
 theorem pow_nil (s : L4) : pow s none = one := rfl
-theorem pow_zero (s t : L4) (ht : sOk t) (h0 : sVal t = 0) : pow s (some t) = one := by
-  unfold pow
-  simp only
-  rw [if_pos ((sc_isZero_iff t ht).mpr h0)]
+theorem pow_zero (s t : L4) (ht : sOk t) (h0 : sVal t = 0) : pow s (some t) = one :=
+  ScalarOps.pow_zero s t ht h0
 theorem pow_general (s t : L4) (hs : sOk s) (ht : sOk t) (h0 : sVal t ≠ 0) (h1 : sVal t ≠ 1) :
-    sOk (pow s (some t)) ∧ sVal (pow s (some t)) = sVal s ^ (sVal t).val := by
-  have hz : isZero t = false := by
-    cases h : isZero t
-    · rfl
-    · exact absurd ((sc_isZero_iff t ht).mp h) h0
-  have ho : isOne t = false := by
-    cases h : isOne t
-    · rfl
-    · exact absurd ((sc_isOne_iff t ht).mp h) h1
-  unfold pow
-  simp only [hz, ho, Bool.false_eq_true, if_false]
-  rw [sc_encode s hs, sc_encode t ht]
-  have hvs : os2ip (i2osp (sVal s).val 32) = (sVal s).val := by
-    rw [os2ip_i2osp]; exact Nat.mod_eq_of_lt (Nat.lt_trans (sVal s).val_lt (by decide))
-  have hvt : os2ip (i2osp (sVal t).val 32) = (sVal t).val := by
-    rw [os2ip_i2osp]; exact Nat.mod_eq_of_lt (Nat.lt_trans (sVal t).val_lt (by decide))
-  rw [hvs, hvt, powMod_eq _ _ _ (by decide : 1 < N)]
-  set r := (sVal s).val ^ (sVal t).val % N with hr
-  have hrlt : r < N := Nat.mod_lt _ (by decide)
-  have hb : IsBytes (i2osp r 32) := i2osp_isBytes _ _
-  have hv : os2ip (i2osp r 32) = r := by
-    rw [os2ip_i2osp]; exact Nat.mod_eq_of_lt (Nat.lt_trans hrlt (by decide))
-  obtain ⟨_, _, h3, _⟩ := sc_decode s (i2osp r 32) hb
-  obtain ⟨_, ok, v⟩ := h3 (i2osp_length _ _) (by rw [hv]; exact hrlt)
-  refine ⟨ok, ?_⟩
-  rw [v, hv, hr, ZMod.natCast_mod, Nat.cast_pow, ZMod.natCast_zmod_val]
+    sOk (pow s (some t)) ∧ sVal (pow s (some t)) = sVal s ^ (sVal t).val :=
+  ScalarOps.pow_general s t hs ht h0 h1
 
 /-- the methods of `scalar.go` are regenerated from their Go bodies on every run (nil guard as an `Option` argument, then the
 calls into `internal/scalar`); the model the theorems above are about *is* the regenerated method, nil arguments included -/
